@@ -101,6 +101,7 @@ def check(stream, adj, o):
     max_h = adj.get("max_request_header_size", DEFAULT_HDR)
     max_b = adj.get("max_request_body_size", DEFAULT_BODY)
     items = REQ.parse_stream(stream)
+    o.reparse_tolerant([it.method for it in items])
     finals = [r for r in o.responses if not r.interim]
     # (c) every server-generated error response is well formed, announces closing, and is followed by EOF
     for i, r in enumerate(finals):
